@@ -159,7 +159,7 @@ func openKnown(eng *Engine) []string {
 // nativeReplay replays one violation; ok = the same failure was observed natively.
 func nativeReplay(verif, repo, prop string, v *Violation, path string) (bool, string, error) {
 	eng := currentEngine
-	if !eng.nativeReplayable(v.Harness) {
+	if !eng.nativeReplayable(v.Harness) || v.NoNative {
 		return false, "", fmt.Errorf("harness uses engine-only environment models (schedule/FS/clock); deterministic engine replay only")
 	}
 	rc := replayCase{Harness: v.Harness, Inputs: v.Inputs, Choices: v.Choices, Tier: eng.tier, Known: openKnown(eng), Outcome: v.Kind, Label: v.Label}
